@@ -1,5 +1,5 @@
 import Gomjml.Props.C03
-#print axioms Gomjml.Props.C03.C03_partial
-#print axioms Gomjml.Layout.C02_C03_tame
+#print axioms Gomjml.Props.C03.C03_full
+#print axioms Gomjml.Props.C03.C03_wrapper_hand_over
+#print axioms Gomjml.Layout.C02_C03_all
 #print axioms Gomjml.Layout.wf_spec
-#print axioms Gomjml.Props.C03.C03_all_bodies
